@@ -64,3 +64,15 @@ Proof.
   split_and!; [reflexivity|by vm_compute; repeat constructor|reflexivity|reflexivity|].
   intros c Hc. unfold grow_refused. apply N.leb_gt. exact Hc.
 Qed.
+
+(* ---------------------------------------------------------------- whole histories *)
+From Gecs Require Import Query World Borrow Run WorldInv LoopFacts HistRun DirectHist.
+
+(** For every history of the run language, in every archetype of every persisting world: capacity()
+    never decreases, len() is the number of stored (live) handles and never exceeds capacity(). *)
+Theorem C12_capacity_never_decreases_len_exact : forall cfg d qs ops1 ops2 st1 st2 i a w1 w2 s1 s2,
+  hist_case cfg d qs (ops1 ++ ops2) = true ->
+  run_to cfg d qs rs0 ops1 = Some st1 -> run_to cfg d qs st1 ops2 = Some st2 ->
+  worlds st1 !! i = Some (Some w1) -> worlds st2 !! i = Some (Some w2) -> w1 !! a = Some s1 -> w2 !! a = Some s2 ->
+  cap s1 <= cap s2 /\ len s2 = length (ents s2) /\ len s2 <= cap s2.
+Proof. exact run_capacity_monotone. Qed.
